@@ -5,7 +5,7 @@
    Notation: Jf s / Yf s / Wf s / Af s / bf s are the J_, Y_, W_, Ac_, Bc_ of state s viewed as functions; for a vector z
    [cost n k J Y z] = sum_{r<n} ((J z)_r - Y_r)^2 and [grad n k J Y z i] = (J^T (J z - Y))_i over the first n rows. *)
 From Coq Require Import Reals List Arith Lia Lra Bool.
-From Romea Require Import Num NumR LinAlgBModel LinAlgBProofs LsModel LsProofs LsHistoryProofs LsWeighted LsEndToEnd SrcEigenDyn SrcEigenDynFacts SrcTieC07.
+From Romea Require Import Num NumR LinAlgBModel LinAlgBProofs LsModel LsProofs LsHistoryProofs LsWeighted LsEndToEnd SrcEigenDyn SrcEigenDynFacts SrcTieLs SrcTieC07.
 From Romea.gen Require Import SrcLs.
 Import ListNotations.
 Local Open Scope R_scope.
